@@ -8,7 +8,7 @@ from ..core import Failure
 from ..model import MP, arr_map, first_diff
 
 ID = "C06"
-BUDGET = {"quick": 500, "thorough": 2000}
+BUDGET = {"quick": 500, "thorough": 8000}
 TECHNIQUE = 'Hypothesis-generated (polynomial, variable designations, option setting) vs exact formal derivative; linearity/product-rule/mixed-partials metamorphic relations'
 LEVEL_TEXT = "derivative/gradient/hessian on generated arrays under all 16 retain/sort settings with every designation form are compared with the model's formal partial derivatives and the stated result shapes."
 RULE = (
